@@ -96,7 +96,8 @@ Definition check_fullness (g : graph) (s : ostate) : ostate * bool :=
 Definition mirror (st : Z) : Z := if st =? 1 then 2 else if st =? 2 then 1 else 0.
 Definition bump (l : list Z) (v : nat) (d : Z) : list Z := upd l v (nthZ l v + d).
 Definition set_orientation (g : graph) (s : ostate) (a b : nat) (st : Z) : outcome ostate :=
-  if negb (inb g a && inb g b) then Err else if mult g a b <=? 0 then Err else
+  if negb (inb g a && inb g b) then Err else if mult g a b <=? 0 then Err
+  else if negb ((st =? 0) || (st =? 1) || (st =? 2)) then Err else   (* OrientationState is a three-valued enum *)
   let k := mult g a b in let old := dir_at s a b in
   let '(o1, i1) := if old =? 1 then (bump (outc s) a (- k), bump (inc s) b (- k))
                    else if old =? 2 then (bump (outc s) b (- k), bump (inc s) a (- k)) else (outc s, inc s) in
